@@ -644,6 +644,8 @@ val row_yaml : field_row -> string
 
 val row_aliases : field_row -> string
 
+val row_type : field_row -> string
+
 val cut_comma : string -> string * string
 
 val split_comma : string -> string list
@@ -953,6 +955,8 @@ val join_comma : string list -> string
 
 val ser : json -> string
 
+val canon : json -> json
+
 val env_prefix : string
 
 val mandatory_fields : string list
@@ -1089,5 +1093,66 @@ val interpolate_pipeline :
   list) option
 
 val run8 : sexp -> sexp
+
+type ty =
+| TString
+| TInt
+| TBool
+| TFloat
+| TAny
+| TPtr of ty
+| TSlice of ty
+| TMap of ty
+| TStruct of string
+
+type val0 =
+| VNil
+| VStr of string
+| VInt of z
+| VBool of bool
+| VFloat of string * string
+| VAny of gv
+| VPtr of val0
+| VSlice of val0 list
+| VMap of (string * val0) list
+| VStruct of (string * val0) list
+
+val strip : string -> string -> string option
+
+val parse_ty : nat -> string -> ty
+
+val ty_of_row : field_row -> ty
+
+val fields_of : (string * field_row list) list -> string -> field_row list
+
+val exported : (string * field_row list) list -> string -> field_row list
+
+val zero0 : (string * field_row list) list -> nat -> ty -> val0
+
+type ures =
+| UOk of val0
+| UErr
+
+val struct_get : string -> (string * val0) list -> val0 option
+
+val struct_set :
+  string -> val0 -> (string * val0) list -> (string * val0) list
+
+val scalar_into : nat -> ty -> gv -> val0 -> ures
+
+val unm :
+  (string * field_row list) list -> nat -> nat -> ty -> gv -> val0 -> ures
+
+val ref_lookup : field_row -> (string * gv) list -> gv option
+
+val ref : (string * field_row list) list -> nat -> nat -> ty -> gv -> val0
+
+val val_json : (string * field_row list) list -> nat -> ty -> val0 -> json
+
+val test_structs : (string * field_row list) list
+
+val run9 : sexp -> sexp
+
+val run_ref : sexp -> sexp
 
 val dispatch : string -> sexp -> sexp
